@@ -111,6 +111,27 @@ func runC11(c *Ctx) {
 				c.Ob("C11-R1", "optional pointer decoder has the empty-value path", c.FnPos(od), false, "")
 			}
 		}
+		// consensus types with a hand-written decoder: the receipt status field has exactly three accepted forms
+		// (0x01 success, empty failure, 32-byte post state); anything else must be rejected, or two byte strings decode
+		// to the same receipt
+		ss := c.Fn("core/types:(*Receipt).setStatus")
+		fss := c.Facts(ss)
+		nst := 0
+		for _, rs := range fss.AcceptingReturns(-1, false) {
+			nst++
+			L := rs.State.lits
+			ok := false
+			switch {
+			case L["store:Receipt#0.Status=1"]:
+				ok = L["[]byte#0 == types.receiptStatusSuccessfulRLP"]
+			case L["store:Receipt#0.Status=0"]:
+				ok = L["[]byte#0 == types.receiptStatusFailedRLP"]
+			case L["store:Receipt#0.PostState=[]byte#0"]:
+				ok = L["len([]byte#0) == 32"]
+			}
+			c.Ob("C11-R1", "Receipt.setStatus accepts a status field only in its one canonical form for the decoded value", c.Position(rs.Ret.Pos()), ok, strings.Join(guardLits(rs.State), "; "))
+		}
+		c.Ob("C11-R1", "Receipt.setStatus has the three accepted forms", c.FnPos(ss), nst == 3, fmt.Sprintf("%d accepting path states", nst))
 		// raw family
 		rr := c.Fn("rlp:readKind")
 		fr := c.Facts(rr)
@@ -176,7 +197,7 @@ func runC11(c *Ctx) {
 			c.Ob("C11-R1", "string headers use 0x80 / 0xB7", c.Position(cs.Pos()), t == "128,183", t)
 		}
 	})
-	c.Min("C11-R1", 28)
+	c.Min("C11-R1", 32)
 
 	c.Rule("C11-R1b", "Stream.Kind: size-limit errors are sticky", func() {
 		kd := c.Fn("rlp:(*Stream).Kind")
@@ -396,6 +417,53 @@ func runC11(c *Ctx) {
 		c.Ob("C11-R3", "reachable-panic list computed", "", true, fmt.Sprintf("%d functions with explicit panics in package rlp reachable from Decode/Stream/Split/CountValues", len(names)))
 	})
 	c.Min("C11-R3", 1)
+
+	c.Rule("C11-R5", "the codec cache is read and filled only under its lock (a half-built entry is never visible to another goroutine)", func() {
+		sp := c.Prog.Package(c.Pkg("rlp").Types)
+		g, _ := sp.Members["typeCache"].(*ssa.Global)
+		if g == nil {
+			panic(anchorErr{"package-level variable rlp.typeCache not found"})
+		}
+		ci1 := c.Fn("rlp:cachedTypeInfo1")
+		n := 0
+		for _, fn := range c.SrcFns {
+			if fn.Pkg != sp {
+				continue
+			}
+			var held map[ssa.Instruction]map[string]bool
+			for _, b := range fn.Blocks {
+				for _, ins := range b.Instrs {
+					uses := false
+					for _, op := range ins.Operands(nil) {
+						if *op == ssa.Value(g) {
+							uses = true
+						}
+					}
+					if !uses {
+						continue
+					}
+					n++
+					if held == nil {
+						_, _, held = lockAnalysis(fn, nil, true)
+					}
+					locked := held[ins]["rlp.typeCacheMutex"] || held[ins]["rlp.typeCacheMutex (read)"]
+					ok := locked || fn == ci1 || fn.Name() == "init" // package initialisation runs before any other goroutine
+					c.Ob("C11-R5", shortFn(fn)+": typeCache is accessed with typeCacheMutex held (cachedTypeInfo1: by its callers)", c.Position(ins.Pos()), ok, fmt.Sprintf("locks held: %v", keysOf(held[ins])))
+				}
+			}
+			// the unlocked helper is entered only with the write lock held, or from its own recursion
+			for _, cs := range callSitesOf(fn, ci1) {
+				if held == nil {
+					_, _, held = lockAnalysis(fn, nil, true)
+				}
+				rec := fn == ci1 || c.CG().Reach([]*ssa.Function{ci1}, ReachOpts{})[fn] != nil
+				c.Ob("C11-R5", shortFn(fn)+" calls cachedTypeInfo1 with the write lock held (or from within the locked generation)", c.Position(cs.Pos()),
+					held[cs]["rlp.typeCacheMutex"] || rec, fmt.Sprintf("locks held: %v", keysOf(held[cs])))
+			}
+		}
+		c.Ob("C11-R5", "typeCache accesses found", "", n >= 3, fmt.Sprintf("%d", n))
+	})
+	c.Min("C11-R5", 5)
 }
 
 func isByteTyped(v ssa.Value) bool {
